@@ -1216,3 +1216,79 @@ Proof.
 Qed.
 
 End Proofs.
+
+(* ---------- examples (vm_compute) ---------- *)
+Definition ex_arrs : list arrival :=
+  [(1%Z, 0, 4); (2%Z, 1, 1); (3%Z, 2, 3#2); (4%Z, 2, 1#2); (5%Z, 5, 2); (6%Z, 6, 1#3)].
+
+Lemma ex_wf : wf_arrs ex_arrs.
+Proof.
+  split.
+  - cbn. repeat split; unfold Qle; cbn; lia.
+  - cbn. repeat constructor; cbn; intuition discriminate.
+Qed.
+
+(* unlimited sharing, threshold 1: customer 1 (requirement 4) is in service from 0 to 53/6 while the number
+   sharing changes at 1, 2, 4, 5, 6, 20/3 and 43/6; the node empties at 28/3 *)
+Example ps_example_unlimited :
+  map (fun d => (d_id d, d_start d, d_exit d)) (rev (deps (ps_run 1 None ex_arrs))) =
+  [(2%Z, 1, 4); (4%Z, 2, 4); (3%Z, 2, 20#3); (6%Z, 6, 43#6); (1%Z, 0, 53#6); (5%Z, 5, 28#3)].
+Proof. vm_compute. reflexivity. Qed.
+(* the single-server FIFO queue on the same input empties at the same instant 28/3 *)
+Example fifo_example :
+  map (fun d => (d_id d, d_start d, d_exit d)) (fifo_run ex_arrs) =
+  [(1%Z, 0, 4); (2%Z, 4, 5); (3%Z, 5, 13#2); (4%Z, 13#2, 7); (5%Z, 7, 9); (6%Z, 9, 28#3)].
+Proof. vm_compute. reflexivity. Qed.
+(* capacity 2, threshold 2 (nobody is slowed down): customers 3 and 4 arrive together at 2, customer 4 waits
+   until customer 3 leaves at 7/2 *)
+Example ps_example_cap2 :
+  map (fun d => (d_id d, d_start d, d_exit d)) (rev (deps (ps_run 2 (Some 2%nat) ex_arrs))) =
+  [(2%Z, 1, 2); (3%Z, 2, 7#2); (1%Z, 0, 4); (4%Z, 7#2, 4); (6%Z, 6, 19#3); (5%Z, 5, 7)].
+Proof. vm_compute. reflexivity. Qed.
+(* capacity 3, threshold 3/2 *)
+Example ps_example_cap3 :
+  map (fun d => (d_id d, d_start d, d_exit d)) (rev (deps (ps_run (3#2) (Some 3%nat) ex_arrs))) =
+  [(2%Z, 1, 5#2); (4%Z, 5#2, 7#2); (3%Z, 2, 9#2); (1%Z, 0, 16#3); (6%Z, 6, 58#9); (5%Z, 5, 259#36)].
+Proof. vm_compute. reflexivity. Qed.
+
+(* ---------- the statements in the form quoted by Properties/C19.v ---------- *)
+Lemma count_ws_pos l c : In c l -> c_ws c = true -> (0 < count_ws l)%nat.
+Proof.
+  unfold count_ws. induction l as [|x r IH]; cbn; intros H Hw; [contradiction|].
+  destruct H as [->|H]; [rewrite Hw; cbn; lia|]. destruct (c_ws x); cbn; [lia|auto].
+Qed.
+
+(* ps_rate with the rate written as min(1, R/k), k = number of customers currently sharing *)
+Theorem ps_rate_min R K : 0 < R -> match K with Some k => (1 <= k)%nat | None => True end ->
+  forall arrs s g s' c c',
+  wf_arrs arrs -> reach R K arrs s g -> step R K s = Some s' ->
+  In c (inds s) -> c_ws c = true -> In c' (inds s') -> cid c' = cid c ->
+  c_ws c' = true /\
+  work_left R s' c' == work_left R s c - Qmin 1 (R / qocc (occupancy s)) * (now s' - now s).
+Proof.
+  intros HR HK arrs s g s' c c' Hwf Hr Hs Hc Hw Hc' Hid.
+  destruct (ps_rate R K HR HK arrs s g s' c c' Hwf Hr Hs Hc Hw Hc' Hid) as [H1 H2].
+  split; [exact H1|]. rewrite H2. rewrite (rate_min R HR (occupancy s)); [reflexivity|].
+  unfold occupancy. eapply count_ws_pos; eauto.
+Qed.
+
+(* ps_fifo_equiv for the unlimited node, without the redundant premises *)
+Theorem ps_fifo_equiv_inf R : R == 1 ->
+  forall arrs s g done,
+  wf_arrs arrs -> reach R None arrs s g -> arrs = done ++ pend s ->
+  total_work R s == fifo_work (fifo_run done) (now s) /\
+  (total_work R s == 0 <-> fifo_work (fifo_run done) (now s) == 0).
+Proof.
+  intros HR arrs s g done Hwf Hr Hd.
+  assert (0 < R) by (rewrite HR; reflexivity).
+  exact (ps_fifo_equiv R None H Logic.I arrs s g done eq_refl HR Hwf Hr Hd).
+Qed.
+
+(* the FIFO model's remaining work in closed form: after the arrivals in l (all at or before t) it is
+   max(0, last departure - t): the server works without interruption until the last departure *)
+Theorem fifo_work_closed l t : 0 <= t -> (forall a, In a l -> a_t a <= t /\ 0 <= a_w a) ->
+  fifo_work (fifo_run l) t == Qmax 0 (fifo_last 0 l - t).
+Proof.
+  intros Ht H. unfold fifo_run. rewrite <- (fifo_closed l 0 t H).
+  destruct (Q.max_spec 0 (0 - t)) as [[H1 E]|[H1 E]]; rewrite E; lra.
+Qed.
